@@ -67,7 +67,7 @@ def node_strategy():
         "bind": st.sampled_from(["l", "l", "h", "g"]),
         "pad": st.integers(0, 2),
         "ro": st.booleans(),
-        "root": st.sampled_from([""] * 20 + ["u", "retain", "retain", "init", "init", "fini", "preinit", "note", "note"]),
+        "root": st.sampled_from([""] * 20 + ["u", "u", "retain", "retain", "init", "init", "fini", "preinit", "note", "note"]),
         "edges": st.lists(st.tuples(st.integers(0, MAXN - 1), st.integers(0, 5)).map(list), max_size=3),
         "ss": st.sampled_from([-1, -1, -1, -1, 0, 1]),       # function walks start/stop set K
         "member": st.sampled_from([-1, -1, -1, 0, 1]),       # function is registered in set K
@@ -474,13 +474,8 @@ class C05(Check):
         return {"nontrivial": nontrivial, "key": g.key(), "classes": sorted(set(classes)), "counters": counters,
                 "nodes": len(g.nodes), "closure": len(clos)}
 
-    def excluded_by_construction(self, case):
-        # Known finding: `-u sym` is not a GC root in wild. Exactly the cases in which some section
-        # is reachable only through a -u root are skipped (and counted).
-        g = Graph(case)
-        if g.closure()[0] != g.closure(with_u=False)[0]:
-            return "reachable-section-dropped:root-u"
-        return None
+    # The finding `reachable-section-dropped:root-u` (-u symbols were not GC roots) was repaired by /repo
+    # commit 5aeb0ab; nothing is excluded any more and its case is replayed on every run.
 
     @staticmethod
     def _first_diff(a, b):
